@@ -83,6 +83,10 @@ CHECKS = {
          'gate-level TLA+ model of the client (Client.tla: callers, reader, collector, closer, environment; pooled transaction objects with identity) model-checked exhaustively; the complete transition cover of three configurations replayed on a real Client through a delegating agent, scripted connection, virtual clock and scripted collector (one goroutine released per model action); the recorded event log judged by a TLA+ requirement monitor (ClientTrace.tla)',
          'Close: exactly one successful Close (nil or CloseErr with injected agent/connection errors), reader and collector gone when it returns, connection closed exactly once or never under WithNoConnClose, no handler afterwards, Starts begun afterwards refused without writing - on every replayed schedule with Close at any point.',
          'Trusted: Client.tla as a gate-level transcription of client.go (conformance is checked: every replayed step must end at the gate the model predicts, drift = 0 on the unchanged tree); the gate controller (one runnable goroutine at a time); TLC. Known findings K2/K3/K4 are matched by narrow window signatures (known_findings.json). Two concurrent ids are model-checked; replay covers one id exhaustively.'),
+ "C20": (True, "DESIGN.md §4 C20",
+         "capacity/demand model (Alloc.tla) enumerated by TLC over warm-up shape x measured shape x operation; each triple measured on the real code with testing.AllocsPerRun; a TLA+ trace specification requires zero allocations (R) and checks that allocations occur exactly where the model says the design must allocate (I)",
+         "Zero-allocation requirement on every sampled in-scope triple (all design corners kept); the explanation model agrees with every measurement (drift 0), so the scenario space is understood rather than merely sampled.",
+         "Trusted: testing.AllocsPerRun / escape analysis of the installed Go toolchain; TLC; harness. Known findings K1, K6."),
 }
 
 ALL = ["C%02d" % i for i in range(1, 21)]
